@@ -591,12 +591,14 @@ class Continuum:
         A = build_A(possible_unitary_alignments, sizes)
 
         x = cp.Variable(shape=(n,), boolean=True)
+        # Costs are given to the solver in units of delta_empty : its tolerances are absolute.
+        costs = disorders / dissimilarity.delta_empty if dissimilarity.delta_empty > 0 else disorders
         try:
             import cylp
-            cp.Problem(cp.Minimize(disorders.T @ x), [A @ x >= 1]).solve(solver=cp.CBC)
+            cp.Problem(cp.Minimize(costs.T @ x), [A @ x >= 1]).solve(solver=cp.CBC)
         except (ImportError, cp.SolverError):
             logging.warning("CBC solver not installed. Using GLPK.")
-            cp.Problem(cp.Minimize(disorders.T @ x), [A @ x >= 1]).solve(solver=cp.GLPK_MI)
+            cp.Problem(cp.Minimize(costs.T @ x), [A @ x >= 1]).solve(solver=cp.GLPK_MI)
         assert x.value is not None, "The linear solver couldn't find an alignment with minimal disorder " \
                                     "(likely because the amount of possible unitary alignments was too high)"
         # compare with 0.9 as cvxpy returns 1.000 or small values i.e. 10e-14
@@ -773,13 +775,15 @@ class Continuum:
         A = build_A(possible_unitary_alignments, sizes)
 
         x = cp.Variable(shape=(n,), boolean=True)
+        # Costs are given to the solver in units of delta_empty : its tolerances are absolute.
+        costs = disorders / dissimilarity.delta_empty if dissimilarity.delta_empty > 0 else disorders
         try:
             import cylp
-            cp.Problem(cp.Minimize(disorders.T @ x), [A @ x == 1]).solve(solver=cp.CBC)
+            cp.Problem(cp.Minimize(costs.T @ x), [A @ x == 1]).solve(solver=cp.CBC)
         except (ImportError, cp.SolverError):
             logging.warning("CBC solver not installed. Using GLPK.")
             matmul = A @ x
-            cp.Problem(cp.Minimize(disorders.T @ x), [1 <= matmul, matmul <= 1]).solve(solver=cp.GLPK_MI)
+            cp.Problem(cp.Minimize(costs.T @ x), [1 <= matmul, matmul <= 1]).solve(solver=cp.GLPK_MI)
         assert x.value is not None, "The linear solver couldn't find an alignment with minimal disorder " \
                                     "(likely because the amount of possible unitary alignments was too high)"
         # compare with 0.9 as cvxpy returns 1.000 or small values i.e. 10e-14
